@@ -157,7 +157,14 @@ class C13(Prop):
         def cases():
             for c in inner.make():
                 yield dict(c, sched=True)
-        return [Enumeration("abandoned_while_another_thread_is_inside_a_send", cases, exhaustive=True)]
+        from harness.runner import after_every_prelude
+        ping = {"kind": "ping", "payload": ["hex", "7071"], "forms": [0]}
+        text = {"kind": "text", "payload": ["str", "srv \u20ac"], "forms": [0], "frag": [2]}
+        battery = [{"msgs": [text, ping], "msgs2": [text], "idle": True, "ping_timeout": False, "tls": False, "proxy": False,
+                    "sends": [{"when": ["event", "ready", 0], "do": [["send_text", "app"]]}], "client_close": None,
+                    "server_close": False, "end": "eof", "seg": "whole", "send_fault": None}]
+        return [Enumeration("abandoned_while_another_thread_is_inside_a_send", cases, exhaustive=True),
+                after_every_prelude(battery, "every_abandonment_after_every_kind_of_earlier_connection")]
 
     def run_case(self, case):
         if case.get("sched"):
